@@ -306,6 +306,12 @@ fn probe_dispatch(stem: &str, buf: &[u8], off: usize) -> Outcome {
         "histU64" => try_decode::<H<U64ED>>(buf, off).0,
         "histaccount" => try_decode::<H<AccountInfoED>>(buf, off).0,
         "histb256" => try_decode::<H<B256ED>>(buf, off).0,
+        "histU256" => try_decode::<H<U256ED>>(buf, off).0,
+        "histstring" => try_decode::<H<String>>(buf, off).0,
+        "histbytecode" => try_decode::<H<BytecodeED>>(buf, off).0,
+        "histtx" => try_decode::<H<TxED>>(buf, off).0,
+        "histreceipt" => try_decode::<H<TxReceiptED>>(buf, off).0,
+        "histtrace" => try_decode::<H<TraceED>>(buf, off).0,
         "rawblock" => try_decode::<RawBlock>(buf, off).0,
         _ => panic!("c14-probe: unknown type {}", stem),
     }
@@ -551,15 +557,15 @@ fn json_roundtrip<T: Serialize + DeserializeOwned>(cx: &mut Ctx, ty: &str, x: &T
     let j1 = match serde_json::to_value(x) { Ok(j) => j, Err(e) => { cx.fail(format!("json {}: serialisation failed: {}", ty, e), json!({"type": ty})); return; } };
     let y: T = match serde_json::from_value(j1.clone()) {
         Ok(y) => y,
-        Err(e) => { cx.fail(format!("json {}: the serialised form is not accepted by the deserialiser: {}", ty, e.to_string().chars().take(120).collect::<String>()), json!({"type": ty, "json": j1})); return; }
+        Err(e) => { cx.fail(format!("json {}: the serialised form is not accepted by the deserialiser: {}", ty, e.to_string().chars().take(120).collect::<String>()), json!({"type": ty, "json": j1.to_string().chars().take(1500).collect::<String>()})); return; }
     };
     let j2 = serde_json::to_value(&y).unwrap_or(Value::Null);
-    if j1 != j2 { cx.fail(format!("json {}: deserialise then serialise changes the JSON", ty), json!({"type": ty, "json": j1, "again": j2})); return; }
+    if j1 != j2 { cx.fail(format!("json {}: deserialise then serialise changes the JSON", ty), json!({"type": ty, "json": j1.to_string().chars().take(1500).collect::<String>(), "again": j2.to_string().chars().take(1500).collect::<String>()})); return; }
     if text_level {
         let s1 = serde_json::to_string(x).unwrap_or_default();
         match serde_json::from_str::<T>(&s1) {
-            Ok(z) => { let s2 = serde_json::to_string(&z).unwrap_or_default(); if s1 != s2 { cx.fail(format!("json {}: text form changes when deserialised and serialised again", ty), json!({"type": ty, "text": s1, "again": s2})); } }
-            Err(e) => cx.fail(format!("json {}: text form not accepted: {}", ty, e), json!({"type": ty, "text": s1})),
+            Ok(z) => { let s2 = serde_json::to_string(&z).unwrap_or_default(); if s1 != s2 { cx.fail(format!("json {}: text form changes when deserialised and serialised again", ty), json!({"type": ty, "text": s1.chars().take(1500).collect::<String>(), "again": s2.chars().take(1500).collect::<String>()})); } }
+            Err(e) => cx.fail(format!("json {}: text form not accepted: {}", ty, e), json!({"type": ty, "text": s1.chars().take(1500).collect::<String>()})),
         }
     }
 }
@@ -577,10 +583,10 @@ fn hist_bytes<V: Encode>(entries: &[(u64, Option<V>)], len_field: u32) -> Vec<u8
     b
 }
 
-fn run_hist<V: M + Eq>(cx: &mut Ctx, stem: &str, coq_v: &str, codec_v: &str, eqb_v: &str, gen: impl Fn(&mut Rng) -> V) {
+fn run_hist<V: M + Eq>(cx: &mut Ctx, stem: &str, coq_v: &str, codec_v: &str, eqb_v: &str, quick_n: usize, gen: impl Fn(&mut Rng) -> V) {
     type H<V> = BlockHistoryCacheData<V>;
     let base = cx.base();
-    let n = if cx.thorough { 300 } else { 36 };
+    let n = if cx.thorough { quick_n * 8 } else { quick_n };
     let mut vterms = Vec::new();
     let mut mterms = Vec::new();
     let mut mid = base + 500_000;
@@ -771,7 +777,7 @@ pub fn run(out: &Path, seed: u64, thorough: bool) -> Result<(), Box<dyn std::err
     run_type::<BlockResponseED>(&mut cx, "block", "block", &format!("(c_block {})", gas_limit_coq), "block_eqb", blocks.clone(), vec![]);
     let mut traces: Vec<TraceED> = (0..8).map(|m| g_trace(&mut r, 0, 0, m)).collect();
     for d in 1..=5 { for f in 1..=3 { let m = r.below(8); traces.push(g_trace(&mut r, d, f, m)); } }
-    { let mut t = g_trace(&mut r, if thorough { 120 } else { 40 }, 1, 1); fn strip(t: &mut TraceED) { t.input = vec![1u8].into(); t.output = Vec::<u8>::new().into(); for c in t.calls.iter_mut() { strip(c); } } strip(&mut t); traces.push(t); }
+    { let mut t = g_trace(&mut r, if thorough { 80 } else { 40 }, 1, 1); fn strip(t: &mut TraceED) { t.input = vec![1u8].into(); t.output = Vec::<u8>::new().into(); for c in t.calls.iter_mut() { strip(c); } } strip(&mut t); traces.push(t); }
     traces.extend((0..n(10)).map(|_| { let (d, f, m) = (r.below(4), r.below(4), r.below(8)); g_trace(&mut r, d, f, m) }));
     run_type::<TraceED>(&mut cx, "trace", "trace", "c_trace", "trace_eqb", traces.clone(), vec![]);
     // values concatenate: a tuple of records is the concatenation of their encodings
@@ -785,9 +791,16 @@ pub fn run(out: &Path, seed: u64, thorough: bool) -> Result<(), Box<dyn std::err
     }
 
     // ---- histories
-    run_hist::<U64ED>(&mut cx, "histU64", "N", "c_U64", "N.eqb", g_u64ed);
-    run_hist::<AccountInfoED>(&mut cx, "histaccount", "account", "c_account", "account_eqb", g_account);
-    run_hist::<B256ED>(&mut cx, "histb256", "bytes", "c_b256", "bytes_eqb", g_b256);
+    // every value type the versioned tables store
+    run_hist::<U64ED>(&mut cx, "histU64", "N", "c_U64", "N.eqb", 36, g_u64ed);
+    run_hist::<AccountInfoED>(&mut cx, "histaccount", "account", "c_account", "account_eqb", 30, g_account);
+    run_hist::<B256ED>(&mut cx, "histb256", "bytes", "c_b256", "bytes_eqb", 30, g_b256);
+    run_hist::<U256ED>(&mut cx, "histU256", "N", "c_U256", "N.eqb", 16, g_u256);
+    run_hist::<String>(&mut cx, "histstring", "bytes", "c_string", "bytes_eqb", 16, g_string);
+    run_hist::<BytecodeED>(&mut cx, "histbytecode", "bytes", "c_bytecode", "bytes_eqb", 10, g_bytecode);
+    run_hist::<TxED>(&mut cx, "histtx", "tx", &format!("(c_tx {})", chain), "tx_eqb", 10, |r| { let m = r.below(16); g_tx(r, m) });
+    run_hist::<TxReceiptED>(&mut cx, "histreceipt", "receipt", "c_receipt", "receipt_eqb", 6, |r| { let m = r.below(4); let mut rc = g_receipt(r, m); rc.logs.truncate(1); rc });
+    run_hist::<TraceED>(&mut cx, "histtrace", "trace", "c_trace", "trace_eqb", 6, |r| { let m = r.below(8); g_trace(r, 1, 1, m) });
 
     // ---- raw blocks (RLP through alloy, hex text, String / Vec<String>)
     {
@@ -943,13 +956,58 @@ pub fn run(out: &Path, seed: u64, thorough: bool) -> Result<(), Box<dyn std::err
         for _ in 0..n(30) { json_roundtrip(&mut cx, "LogED", &g_log(&mut r), true); }
         for x in &txs { json_roundtrip(&mut cx, "TxED", x, true); }
         for x in &rcs { json_roundtrip(&mut cx, "TxReceiptED", x, true); }
-        for x in &traces { json_roundtrip(&mut cx, "TraceED", x, true); }
+        fn tdepth(t: &TraceED) -> usize { 1 + t.calls.iter().map(tdepth).max().unwrap_or(0) }
+        for x in &traces { json_roundtrip(&mut cx, "TraceED", x, tdepth(x) <= 60); }
+        // how deep a call trace may be nested before its JSON text stops being readable
+        let chain = |d: usize| -> TraceED {
+            let leaf = |calls: Vec<TraceED>| TraceED { tx_type: "CALL".into(), from: [1u8; 20].into(), to: Some([2u8; 20].into()), calls, gas: U256::from(1u64).into(), gas_used: U256::from(1u64).into(), input: Vec::<u8>::new().into(), output: Vec::<u8>::new().into(), value: U256::ZERO.into(), error: None, revert_reason: None };
+            let mut t = leaf(vec![]);
+            for _ in 1..d { t = leaf(vec![t]); }
+            t
+        };
+        let reads = |d: usize, envelope: bool| -> Result<bool, String> {
+            let t = chain(d);
+            let text = serde_json::to_string(&t).map_err(|e| e.to_string())?;
+            if envelope {
+                // what a JSON-RPC client parses: the response object, then the result
+                let full = format!("{{\"jsonrpc\":\"2.0\",\"id\":1,\"result\":{}}}", text);
+                let v: jsonrpsee::types::Response<TraceED> = serde_json::from_str(&full).map_err(|e| e.to_string())?;
+                match v.payload { jsonrpsee::types::ResponsePayload::Success(x) => Ok(*x == t), _ => Err("error payload".into()) }
+            } else {
+                serde_json::from_str::<TraceED>(&text).map(|x| x == t).map_err(|e| e.to_string())
+            }
+        };
+        for envelope in [false, true] {
+            let mut deepest_ok = 0usize; let mut first_bad: Option<(usize, String)> = None;
+            for d in 1..=200usize {
+                match reads(d, envelope) { Ok(true) => deepest_ok = d, Ok(false) => { first_bad = Some((d, "different value".into())); break; } Err(e) => { first_bad = Some((d, e)); break; } }
+            }
+            cx.count(if envelope { "TraceED json depth (JSON-RPC response)" } else { "TraceED json depth (bare)" }, "deepest_readable", deepest_ok as u64);
+            if let Some((d, e)) = first_bad {
+                cx.fail(format!("json TraceED: a call trace nested {} frames deep serialises to JSON text that serde_json (the bundled client) cannot deserialise{}: {}", d, if envelope { " inside a JSON-RPC response" } else { "" }, e.chars().take(80).collect::<String>()),
+                        json!({"type": "TraceED", "nesting": d, "deepest_readable": deepest_ok, "how": "TraceED{calls:[TraceED{calls:[...]}]} nested that many times, serde_json::to_string then from_str", "evm_call_depth_limit": 1024}));
+            }
+        }
         for x in &blocks { json_roundtrip(&mut cx, "BlockResponseED(hashes)", x, true); }
         for (i, x) in blocks.iter().enumerate() {
             let mut b = x.clone();
             let cnt = match &x.transactions { Either::Left(h) => h.len().min(6), _ => 0 };
             b.transactions = Either::Right((0..cnt).map(|j| txs[(i + j) % txs.len()].clone()).collect());
             json_roundtrip(&mut cx, "BlockResponseED(full)", &b, true);
+        }
+        // compositions the RPC interface returns (txpool_content, eth_getLogs, ...)
+        for i in 0..n(6) {
+            let mut pool: HashMap<String, HashMap<AddressED, HashMap<u64, TxED>>> = HashMap::new();
+            for sect in ["pending", "queued"] {
+                let mut by_addr = HashMap::new();
+                for a in 0..(i % 3) { let mut by_nonce = HashMap::new(); for k in 0..=(a as u64) { by_nonce.insert(g_u64(&mut r) ^ k, txs[(i + a + k as usize) % txs.len()].clone()); } by_addr.insert(g_addr(&mut r), by_nonce); }
+                pool.insert(sect.to_string(), by_addr);
+            }
+            json_roundtrip(&mut cx, "txpool_content", &pool, false);
+            json_roundtrip(&mut cx, "Vec<LogED>", &g_vec(&mut r, 4, g_log), true);
+            json_roundtrip(&mut cx, "Option<TxED>", &if i % 2 == 0 { None } else { Some(txs[i % txs.len()].clone()) }, true);
+            json_roundtrip(&mut cx, "Option<TraceED>", &if i % 2 == 0 { None } else { Some(traces[i % traces.len()].clone()) }, true);
+            json_roundtrip(&mut cx, "Vec<TxReceiptED>", &rcs.iter().skip(i).take(3).cloned().collect::<Vec<_>>(), true);
         }
         // request types
         let raws = [RawBytes::empty(), RawBytes::new("0x".into()), RawBytes::new("0x00ff".into()), RawBytes::new("not hex".into()), RawBytes::from_bytes(Bytes::from(vec![1u8, 2, 3]))];
